@@ -21,6 +21,7 @@ def _one(state, item):
     key, text, preserve = item
     out = []
     for name, fn in rules:
+        _fresh_caches(mods)      # history independence is C05's subject; here every rule starts from fresh trees
         try:
             try:
                 res = fn(text, preserve=preserve) if preserve is not None and _takes_preserve(fn) else fn(text)
@@ -37,6 +38,15 @@ def _one(state, item):
         if res != text:
             out.append((name, res, None))
     return out
+
+
+def _fresh_caches(mods) -> None:
+    for owner, names in ((mods["core"], ("parse", "_group_nodes_in_scope", "_get_line_start_charnos")),
+                         (mods["tracing"], ("trace_origin",))):
+        for n in names:
+            f = getattr(owner, n, None)
+            if f is not None and hasattr(f, "cache_clear"):
+                f.cache_clear()
 
 
 def _takes_preserve(fn) -> bool:
